@@ -132,17 +132,25 @@ PROPS["C14"] = {
     "explanation": "index abstraction with auto-cut loops; ~50 contract variants",
 }
 
+def _c19_contracts():
+    import contracts.iteragg as it
+    return it.VARIANTS
+
+
 PROPS["C19"] = {
-    "modules": [], "contracts": [],
+    "modules": ["contracts.iteragg"],
+    "contracts_fn": _c19_contracts,
     "standin": True,
-    "level": "exploration",
-    "trusted": ["xarray/pandas (Index.get_indexer, isel, reduce, expand_dims, assign_attrs) as installed"],
-    "not_proved": ["_iteragg is a generator over xarray objects: outside the verifier's subset; no obligation is discharged for it yet"],
-    "assumptions": [],
-    "level_text": "bounded only (labelled as such): exhaustive enumeration of the domain the property itself names -- all axis lengths 1..7 (12 in thorough), all n, all begin/end on the axis, sum/mean/full, off-axis labels with and without lookup method -- against an independent window oracle; no deductive obligation yet for _iteragg (xarray-level generator)",
-    "level_note": "not a proof: exhaustive bounded check of the real accessor over the stated finite domain",
-    "technique": "bounded stand-in for contract-based verification: the contract (exact window sequence, stamps, attrs, ValueError for unlocatable labels) evaluated at run time on the real accessor, exhaustively over the property's finite domain",
-    "explanation": "exhaustive bounded evaluation of the contract",
+    "level": "proof",
+    "trusted": ["z3 5.1 / cvc5 1.0.3",
+                "slicing-mode model of xarray/pandas (hdcv/xmodel.py): obj[dim].size, obj.sizes[dim], Index[i], Index[a:b].size, obj[{dim: slice}], assign_attrs, reduce(keep_attrs=True), expand_dims are opaque payload operations whose only modelled effect is the window / attrs / stamp they carry",
+                "pandas Index.get_indexer([x], method) returns one integer in [-1, size), -1 meaning 'not located', and never raises KeyError (assumed contract; the stand-in exercises it with and without lookup methods)",
+                "the sum / mean / full wrappers (which reducer is passed) and the NaN-skipping payload values: bounded stand-in"],
+    "not_proved": ["payload values (np.nansum / np.nanmean results), the three public wrappers, lookup methods nearest/ffill/bfill: bounded stand-in (exhaustive over axis lengths <= 7 / 12)"],
+    "assumptions": ["integers mathematical"],
+    "level_text": "_iteragg is executed symbolically from the real AST in slicing mode for all 32 combinations of (time / other dimension, reducer given or not, n given or defaulted, begin given or not, end given or not): for every axis length, n >= 1 and every begin/end position the generator yields exactly the windows [hi-n, hi) for hi = pos(begin)+1 down to max(pos(end)+1, n), newest first, nothing else; each carries agg_start = hi-n, agg_stop = hi-1, agg_n = n and (for time, with a reducer) the stamp of step hi-1; it returns normally only when the dimension exists and both labels were located and raises ValueError otherwise; all subscripts and windows are inside the axis. The payload values and the public wrappers are covered by the exhaustive bounded stand-in",
+    "level_note": "trusted: z3/cvc5; opaque xarray payload model; pandas get_indexer contract; wrappers and payload only bounded",
+    "explanation": "loop invariant over ghost arrays describing the yielded sequence; 32 contract variants",
 }
 
 PROPS["C10"] = {
@@ -267,17 +275,26 @@ PROPS["C06"] = {
     "explanation": "uniqueness-based lemmas (linear / offset / reversal) not built; see DESIGN.md",
 }
 
+def _c11_contracts():
+    import contracts.dekad as dk
+    return dk.HARNESSES
+
+
 PROPS["C11"] = {
-    "modules": [], "contracts": [],
+    "modules": ["contracts.dekad"],
+    "contracts_fn": _c11_contracts,
     "standin": True,
-    "level": "exploration",
-    "trusted": ["CPython datetime / calendar as the reference calendar", "pandas/xarray for the accessor"],
-    "not_proved": ["the class model (isinstance dispatch, datetime, f-strings) is outside the verifier's current subset: no deductive obligation yet; the z3 lemmas over integer division / calendar ordinals listed in DESIGN.md Appendix A.4 were validated at design time but are not wired to the real AST"],
-    "assumptions": [],
-    "level_text": "bounded only (labelled as such): the laws of the statement (membership, abutment, ndays, 36 per year, mutual inverses date/label/raw, order and hashing, integer translations, accessor == scalar class) evaluated on the real class; quick tier: every dekad of about 1,200 years and every day of about 130 years incl. all boundary years; thorough tier: every dekad and every day from 0001-01-01 to 9999-12-31, which is exactly the finite domain the property quantifies over",
-    "level_note": "not a proof in the quick tier; the thorough tier is an exhaustive enumeration of the property's finite domain",
-    "technique": "bounded stand-in for contract-based verification: the class contract evaluated at run time over the calendar (exhaustively in the thorough tier)",
-    "explanation": "exhaustive/bounded evaluation of the Dekad laws on the real class",
+    "level": "proof",
+    "trusted": ["z3 5.1 / cvc5 1.0.3",
+                "CPython datetime as a proleptic Gregorian ordinal: ORD(y,m+1) = ORD(y,m) + dim(y,m), ORD(y+1,1) = ORD(y,12) + 31, datetime(y,m,d) raises for an invalid date (assumed contract; validated exhaustively against CPython by the stand-in)",
+                "f-string / int() round trip of fixed-width fields: int(f'{v:04d}') == v for 0 <= v <= 9999 (assumed; validated by the stand-in)",
+                "isinstance dispatch follows the type tags of the model values (str / int / date / datetime / Dekad)",
+                "the .dekad accessor (pandas Series.apply) is covered by the stand-in only"],
+    "not_proved": ["the xarray accessor's element-wise agreement with the scalar class: bounded stand-in"],
+    "assumptions": ["integers mathematical"],
+    "level_text": "the real class is executed symbolically (every method and property from /repo's AST, inlined) inside loop-free harnesses with fully symbolic inputs, which is a complete proof for all dates 0001-01-01..9999-12-31, all intra-day instants and all integer offsets: membership (start <= instant <= end, days 1-10 / 11-20 / 21-end), abutment of consecutive dekads, ndays = 10, 10, month length - 20, 36 per year, mutual inverses of date / label / raw construction, comparisons and hashing following the raw integer, chronological order following the raw integer (ghost induction over the abutment step), integer translations; every datetime the class constructs is shown to be a valid date (no ValueError). The stand-in re-checks the same laws on the real interpreter, exhaustively in the thorough tier",
+    "level_note": "trusted: z3/cvc5; calendar and format/parse axioms for CPython (validated exhaustively by the stand-in); accessor only bounded",
+    "explanation": "symbolic harnesses over the real class + ghost induction lemma for monotonicity of the start instant",
 }
 
 PROPS["C12"] = {
